@@ -23,7 +23,7 @@ PROPERTY = "C02"
 LEVEL = "fault_enumeration"
 RULE = ("generated recordings (2..385 channels with metadata, 1..3 channels as flat binaries; sample counts not multiples of the compression "
         "chunk; random int16 content) compressed with 3..40 chunks. Fault space: a failure injected at EVERY chunk index of every file, once "
-        "in compress_file (keep_original in {T,F}) and once in decompress_to_scratch (scratch dir / in place). Histories: in-place compress "
+        "in compress_file (keep_original in {T,F}) and once in decompress_to_scratch (scratch dir / in place); a chunk silently damaged while written (first / middle / last chunk). Histories: in-place compress "
         "then in-place decompress under the file-event log. Entry paths: {bin, cbin, meta} x companions present. Twin readers on selectors "
         "within +-2 of every seam. Non-trivial: >= 3 chunks, last chunk shorter, random content; distinct = distinct (nc, ns, chunk, "
         "operation, failing chunk)")
@@ -31,7 +31,7 @@ ASSUMPTIONS = ["os-level events issued through Python are all seen by the audit 
                "'complete' = the file decompresses (with its .ch) to / equals the source bytes",
                "a failure is an exception raised while one chunk is being (de)compressed"]
 REQUIRED = {"compress_faults_injected": 20, "decompress_faults_injected": 20, "remove_events_judged": 4, "stale_bin_runs": 9, "twin_sync_selectors": 50, "twin_selectors": 200,
-            "roundtrips": 4, "entry_paths": 8, "twin_inconsistent_metadata": 3, "explicit_companions": 4}
+            "roundtrips": 4, "entry_paths": 8, "twin_inconsistent_metadata": 3, "explicit_companions": 4, "silent_write_faults_injected": 20}
 CASE_TIMEOUT = 200.0
 
 
@@ -168,6 +168,42 @@ def run_case(case):
             res.check(not removed and not changed, "compress-fault:files-changed", f"{lab}: removed {removed} changed {changed}")
             res.check(all(a.endswith(("cbin_tmp", ".ch")) for a in added), "compress-fault:unexpected-files", f"{lab}: new files {added}")
             shutil.rmtree(w)
+            # ---------------- chunk k damaged silently on its way to storage (nothing raised while writing): whatever compress_file does about it,
+            #                  a .cbin carrying the final name must decode to the recording and the source must not be lost
+            if k in (0, nchunks // 2, nchunks - 1):
+                keep = bool(rng.integers(0, 2))
+                w = d / f"s{k}"
+                shutil.copytree(b.parent, w)
+                fb = w / b.name
+
+                def cc_silent(self, chunk_idx, _k=k):
+                    idx, (chunk, comp) = orig_cc(self, chunk_idx)
+                    if chunk_idx == _k:
+                        bb = bytearray(comp)
+                        bb[len(bb) // 2] ^= 0x5A
+                        comp = bytes(bb)
+                        res.count("silent_write_faults_injected")
+                    return idx, (chunk, comp)
+                mtscomp.Writer._compress_chunk = cc_silent
+                raised = None
+                try:
+                    sr = spikeglx.Reader(fb, **kw)
+                    try:
+                        sr.compress_file(keep_original=keep, chunk_duration=cd)
+                    except Exception as e:
+                        raised = f"{type(e).__name__}"
+                    finally:
+                        sr.close()
+                finally:
+                    mtscomp.Writer._compress_chunk = orig_cc
+                lab = f"{label}: compress_file(keep_original={keep}) with chunk {k}/{nchunks} silently damaged while written (raised: {raised})"
+                cb = fb.with_suffix(".cbin")
+                good_cbin = cb.exists() and fb.with_suffix(".ch").exists() and cbin_decodes_to(cb, fb.with_suffix(".ch"), raw)
+                if cb.exists():
+                    res.check(good_cbin, "compress-silent-fault:damaged-cbin-published", f"{lab}: a .cbin carries the final name but does not decode to the recording")
+                res.check((fb.exists() and fb.read_bytes() == src_bytes) or good_cbin, "compress-silent-fault:recording-lost",
+                          f"{lab}: neither the source .bin nor a complete .cbin is left; files: {sorted(p.name for p in w.iterdir())}")
+                shutil.rmtree(w)
             # ---------------- decompression to scratch failing at chunk k
             w = d / f"x{k}"
             shutil.copytree(ref, w)
